@@ -5,4 +5,4 @@ Extraction "model.ml" extract_base
   empty_pool pool_ids in_pool height mtp_tip utxo
   accept process_transaction disconnect_n connect_all resurrect remove_for_reorg limit_size expire trim
   reorg step run dump_of check_dump
-  assemble check_template offered_ok chunk_wf MAX_BLOCK_SIGOPS_COST.
+  assemble check_template offered_ok chunk_parents_ok chunk_wf MAX_BLOCK_SIGOPS_COST.
